@@ -217,6 +217,12 @@ func (tw *TumblingWindow) Add(data any) {
 		default:
 			close(tw.initChan)
 		}
+	} else if timeChar == types.EventTime && tw.currentSlot != nil && eventTime.Before(*tw.currentSlot.Start) &&
+		(tw.watermark == nil || !tw.watermark.IsEventTimeLate(eventTime)) {
+		// An on-time event older than the current slot can only occur while the
+		// first slot has not advanced yet (afterwards slot.Start <= watermark).
+		// Re-align the slot to it so that its window is not skipped forever.
+		tw.currentSlot = tw.createSlotFromStart(alignWindowStart(eventTime, tw.size))
 	}
 
 	row := types.Row{
